@@ -7,10 +7,11 @@ import (
 	"fmt"
 	"github.com/rs/zerolog/log"
 	"net/http"
+	neturl "net/url"
 )
 
 func (p *PcClient) stopProcess(name string) error {
-	url := fmt.Sprintf("http://%s/process/stop/%s", p.address, name)
+	url := fmt.Sprintf("http://%s/process/stop/%s", p.address, neturl.PathEscape(name))
 	req, err := http.NewRequest(http.MethodPatch, url, nil)
 	if err != nil {
 		return err
